@@ -31,6 +31,15 @@ try:
     # hard link publish
     os.link("fio.txt","pub.txt"); assert os.path.samefile("fio.txt","pub.txt"); os.unlink("fio.txt"); assert open("pub.txt").read()=="zz"
     os.symlink("pub.txt","ln.txt"); assert os.path.islink("ln.txt") and open("ln.txt").read()=="zz"
+    # a symbolic link to a DIRECTORY followed by '..': the kernel follows the link first
+    os.makedirs("real/sub2"); os.symlink("real/sub2","dlnk")
+    with open("dlnk/../phys.txt","w") as f: f.write("p")
+    assert os.path.exists("real/phys.txt") and not os.path.exists("phys.txt"), sorted(fs.files)
+    assert os.path.abspath("dlnk/../phys.txt")=="/sim/phys.txt"            # lexical, like the real abspath
+    assert os.path.realpath("dlnk/../phys.txt")=="/sim/real/phys.txt", os.path.realpath("dlnk/../phys.txt")
+    assert os.stat("dlnk/../phys.txt").st_size==1 and os.path.isdir("dlnk/..") and os.path.isdir("dlnk")
+    # a non-blocking stdout that is full: the raw write returns None and the buffered layer raises BlockingIOError
+    import select; assert select.select([], [sys.stdout], [], 1)[1]
     names=sorted(e.name for e in os.scandir(".")); print(names)
     print(sorted(glob.glob("*.txt")))
     os.truncate("old.txt", 10); assert os.path.getsize("old.txt")==10
